@@ -48,6 +48,12 @@ Theorem molecules_section_compact : forall names, compactb (group_counts names) 
 Proof. exact group_counts_compact. Qed.
 Print Assumptions molecules_section_compact.
 
+(* ... and the only such list: whatever compact list of (name, count) entries expands to the sequence of names is the
+   section that is written *)
+Theorem molecules_section_unique : forall g names, compactb g = true -> expand g = names -> group_counts names = g.
+Proof. intros g names H <-. apply compact_unique. exact H. Qed.
+Print Assumptions molecules_section_unique.
+
 (* Every molecule-type file is included exactly once. *)
 Theorem includes_exactly_once : forall names,
   NoDup (includes names) /\ forall n, In n (includes names) <-> In n names.
